@@ -306,6 +306,7 @@ class Gen:
                     raise AnchorError('%s: rewrite anchor not found: %r' % (p, old))
                 text = re.sub(pat, lambda _m: new, text)
             log.add('RX(%s)' % why, p, old, new)
+        text = rules.r32_fold(text, p, log)
         text = rules.r1_assert_eq(text, p, log)
         text = rules.r4_let_match(text, p, log)
 
